@@ -167,7 +167,7 @@ def ambiguous_bare(tok):
     return len(vals) > 1
 
 
-def structure_sweep(rng, tier):
+def structure_sweep(rng, tier, all_enum_members=False):
     """one-line programs over structure classes x their logic types / enums"""
     core.setup_impl_import()
     import stationeers_pytrapic.structures_generated as SG
@@ -186,7 +186,7 @@ def structure_sweep(rng, tier):
     enums = [(n, e) for n, e in vars(TG).items() if isinstance(e, type) and issubclass(e, TG._IntEnum) and e is not TG._IntEnum]
     for en, e in enums:
         ms = list(e.__members__)
-        for m in (ms if tier == "thorough" else ms[:4]):
+        for m in (ms if (tier == "thorough" or all_enum_members) else ms[:4]):
             if en in ("LogicType",):
                 continue
             progs.append((f"enum/{en}.{m}", f"db.Setting = {en}.{m}\nd0.Mode = {en}.{m} + 0\n"))
@@ -216,7 +216,9 @@ def main(tier, seed):
     rng = run.rng
     progs = [(n, s) for n, s in impl.repo_programs() if "error" not in n]
     progs += [(f"gen/{i}", p.text()) for i, p in enumerate(progen.generate(rng, 40 if tier == "quick" else 400))]
-    progs += structure_sweep(rng, tier)
+    # when an obligation about the formatting functions is broken (translator fail-closed, theorem), the sweep
+    # over enum members is made exhaustive: it is the search for a concrete failing input
+    progs += structure_sweep(rng, tier, all_enum_members=run.build_failure is not None)
     progs += string_programs()
     jobs = []
     rls = (False,) if tier == "quick" else (False, True)
